@@ -42,11 +42,19 @@ def showOperand (live : List Ref) : Operand → String
   | .scalar q => "s:" ++ showRat q
   | .coll r => "c:" ++ (match live.idxOf? r with | some i => toString i | none => "?")
 
+def showMd (m : List (Nat × OV)) : String :=
+  commaJoin ((m.mergeSort (fun a b => a.1 ≤ b.1)).map fun p => toString p.1 ++ "=" ++ showOV p.2)
+
 def showAny (h : Heap) (live : List Ref) (c : Ref) : String :=
   match obsA h c with
   | .coll (some o) => showObs o
   | .list v => "list V:" ++ commaJoin (v.map showRat)
   | .args l => "args " ++ commaJoin (l.map (showOperand live))
+  | .comp o =>
+    s!"comp{o.kind} T:" ++ commaJoin (o.tags.map toString) ++ " M:" ++ showMd o.md ++ " L:" ++
+      commaJoin (o.shared.map fun t => match t with | some l => ";".intercalate l | none => "?") ++
+      " " ++ " ".intercalate (o.members.map fun m =>
+        match m with | some ob => "{ " ++ showObs ob ++ " }" | none => "{ ? }")
   | _ => "?"
 
 def showLive (h : Heap) (live : List Ref) : String :=
@@ -168,10 +176,18 @@ def pMOp (live : List Ref) : P MOp := do
   | "cull_inplace" => do let ts ← pNat; pure (.cullInplace ts)
   | _ => failure
 
+def onlySeps (s : String) : Bool := s.all fun c => c = '|' || c = '/'
+
+def shareStrComp (h : Heap) (live : List Ref) (c : Ref) : String :=
+  let parts := live.zipIdx.filterMap fun p =>
+    let s := shareComp h c p.1
+    if onlySeps s then none else some (toString p.2 ++ ":" ++ s)
+  "share=" ++ commaJoin parts ++ " int=" ++ shareInner h c
+
 def shareStr (h : Heap) (live : List Ref) (r : Ref) : String :=
   let parts := live.zipIdx.filterMap fun p =>
     let s := shareSig h r p.1
-    if s = "" then none else some (toString p.2 ++ ":" ++ s)
+    if onlySeps s then none else some (toString p.2 ++ ":" ++ s)
   "share=" ++ commaJoin parts
 
 /-- Run one command; returns the new state and the status text. -/
@@ -206,6 +222,71 @@ def runCmd (mode : Mode) (h : Heap) (live : List Ref) (toks : List String) :
     match (pList (pOperand live)).run rest with
     | some (l, []) => let p := newArgs h l; some (p.1, live ++ [p.2], s!"ok {live.length}")
     | _ => none
+  | "wn" :: rest =>
+    let p : P (Except Err (Heap × Ref)) := do
+      let loc ← pList tok; let tags ← pList pNat; let ap ← pList pNat; let d ← pList pNat
+      let dni ← pList pRat; let dhi ← pList pRat; let cont ← pBool
+      pure (weaNew h loc tags ap d dni dhi cont)
+    match p.run rest with
+    | some (.ok (h', r), []) => some (h', live ++ [r], s!"ok {live.length} " ++ shareStrComp h' live r)
+    | some (.error e, []) => some (h, live, showErr e)
+    | _ => none
+  | ["wd", i] =>
+    match i.toNat? >>= (live[·]?) with
+    | none => none
+    | some w =>
+      match weaDup h w with
+      | .ok (h', r) => some (h', live ++ [r], s!"ok {live.length} " ++ shareStrComp h' live r)
+      | .error e => some (h, live, showErr e)
+  | "wf" :: i :: rest =>
+    match i.toNat? >>= (live[·]?) with
+    | none => none
+    | some w =>
+      match (pDOp live).run rest with
+      | some (op, []) =>
+        match weaFilter h w op with
+        | .ok (h', r) => some (h', live ++ [r], s!"ok {live.length} " ++ shareStrComp h' live r)
+        | .error e => some (h, live, showErr e)
+      | _ => none
+  | "wr" :: i :: rest =>
+    match i.toNat? >>= (live[·]?) with
+    | none => none
+    | some w =>
+      let p : P (Nat × Bool × List Rat) := do
+        let dt ← pNat; let sh ← pBool; let v ← pList pRat; pure (dt, sh, v)
+      match p.run rest with
+      | some ((dt, sh, v), []) =>
+        match weaDerived h w dt sh v with
+        | .ok (h', r) => some (h', live ++ [r], s!"ok {live.length} " ++ shareStr h' live r)
+        | .error e => some (h, live, showErr e)
+      | _ => none
+  | "wi" :: rest =>
+    let p : P (Except Err (Heap × Ref)) := do
+      let loc ← pList tok; let i ← pNat; let j ← pNat
+      match live[i]?, live[j]? with
+      | some d, some f => pure (weaInit h loc d f)
+      | _, _ => failure
+    match p.run rest with
+    | some (.ok (h', r), []) => some (h', live ++ [r], s!"ok {live.length} " ++ shareStrComp h' live r)
+    | some (.error e, []) => some (h, live, showErr e)
+    | _ => none
+  | "wm" :: i :: k :: rest =>
+    match i.toNat? >>= (live[·]?), k.toNat? with
+    | some w, some k =>
+      match (pMOp live).run rest with
+      | some (op, []) =>
+        match compMember h w k op with
+        | .error e => some (h, live, showErr e)
+        | .ok h' => some (h', live, "ok")
+      | _ => none
+    | _, _ => none
+  | ["ws", i, k, v] =>
+    match i.toNat? >>= (live[·]?), k.toNat? with
+    | some w, some k =>
+      match compMetaSet h w k v with
+      | .error e => some (h, live, showErr e)
+      | .ok h' => some (h', live, "ok")
+    | _, _ => none
   | "lm" :: i :: rest =>
     match i.toNat? >>= (live[·]?) with
     | none => none
